@@ -210,6 +210,747 @@ def patterns_for(rng, by_rc, n: int):
     return out
 
 
+# ======================================================================================================
+# Histories of calls (hardening).  The property is stated for a *function* of the message and of the
+# received word: whatever the class was used for before must not matter, the objects it hands out belong
+# to the caller, its arguments stay what they were.  A history is a list of steps (tuples of strings):
+#
+#   encode A | data R A | repair A | deint A | make | fill @t A      calls; each pushes exactly one handle
+#   flip @k i | setall @k v                                           the caller overwrites a kept object
+#   read @k | nop | nop+                                              (nop+ pushes an empty handle)
+#
+# A = B:0101… / L:0101… (a new bitarray in a big / little-endian container, "-" = empty) or @k (the kept
+# object itself).  A trailing token ?=0101… is what the property promises for that call (it is not sent
+# to the model).  The same lines, prefixed "bh.", are the protocol of the stateful model
+# (Model/BptcHist.lean: results are new objects, every call is the history-free function of its arguments).
+# ======================================================================================================
+CALL_OPS = {"encode": (1,), "data": (2,), "repair": (1,), "deint": (1,), "make": (), "fill": (1, 2)}
+METHOD = {"encode": "encode", "data": "deinterleave_data_bits", "repair": "repair_if_necessary",
+          "deint": "deinterleave_all_bits", "make": "make_encoding_table", "fill": "fill_encoding_table"}
+WANT_KIND = {"encode": "encode", "repair": "repair-alters-codeword"}
+_FRESH = {}
+
+
+def fresh_class():
+    """an independent copy of the class under test: the module source is executed again in a module object
+    of its own, so the copy has its own globals and its own class-level state and nothing was ever called
+    on it (the "first call" reference of the history probes).  None when that is not possible."""
+    try:
+        if "code" not in _FRESH:
+            path = sys.modules[bptc().__module__].__file__
+            with open(path, encoding="utf-8") as fh:
+                _FRESH["code"] = compile(fh.read(), path, "exec")
+            _FRESH["path"] = path
+        mod = types.ModuleType("okdmr_bptc_196_96_new_copy")
+        mod.__file__ = _FRESH["path"]
+        exec(_FRESH["code"], mod.__dict__)
+        return mod.BPTC19696
+    except Exception:  # noqa
+        return None
+
+
+def canon_obj(o) -> str:
+    """canonical content of an object the class handed out (bitarray, 13x15 table)"""
+    if o is None:
+        return "void"
+    if isinstance(o, bitarray):
+        return o.to01()
+    if isinstance(o, numpy.ndarray):
+        if o.shape != (13, 15):
+            return "ERR shape-" + "x".join(map(str, o.shape))
+        return "".join("0" if v == 0 else "1" if v == 1 else "?" for v in o.flatten().tolist())
+    try:
+        return bits_str(o)
+    except Exception:  # noqa
+        return "ERR not-a-bit-string"
+
+
+def copy_obj(o):
+    if isinstance(o, bitarray):
+        return bitarray(o)  # keeps the bit order of the container
+    if isinstance(o, numpy.ndarray):
+        return o.copy()
+    return o
+
+
+def call_obj(cls, op, args):
+    try:
+        r = getattr(cls, METHOD[op])(*args)
+    except BaseException as e:  # noqa
+        return impl_error(e), None
+    if r is None:
+        return "ERR returned-None", None
+    return canon_obj(r), r
+
+
+def steps_str(steps):
+    return [" ".join(s) for s in steps]
+
+
+def steps_parse(lines):
+    return [tuple(l.split(" ")) for l in lines]
+
+
+class Hist:
+    """one history executed on `cls`; `fresh` (a factory of new copies of the class) enables the comparison
+    of every call with the same call made first on a new copy"""
+
+    def __init__(self, cls, fresh=None):
+        self.cls, self.fresh = cls, fresh
+        self.steps, self.lines, self.bad, self.enc = [], [], [], []
+        self.held, self.exp, self.owner, self.no_read = [], [], [], set()
+
+    def _arg(self, a: str):
+        if a.startswith("@"):
+            k = int(a[1:])
+            return self.held[k] if k < len(self.held) else None
+        e, s = a.split(":", 1)
+        return bitarray("" if s == "-" else s, endian="little" if e == "L" else "big")
+
+    def _push(self, i, obj, content):
+        self.held.append(obj)
+        self.exp.append(content)
+        self.owner.append(i)
+
+    def _touched(self, o):
+        """the caller (or fill, its table) changed object o: every handle that is this object follows"""
+        cur = canon_obj(o)
+        for j, h in enumerate(self.held):
+            if h is o:
+                self.exp[j] = cur
+
+    def run(self, steps):
+        for st in steps:
+            self.step(st)
+        return self
+
+    def step(self, st):
+        st = tuple(st)
+        i = len(self.steps)
+        self.steps.append(st)
+        toks = list(st)
+        want = toks.pop()[2:] if toks[-1].startswith("?=") else None
+        op = toks[0]
+        if op in ("nop", "nop+"):
+            out = "void"
+            if op == "nop+":
+                self._push(i, None, None)
+        elif op in ("flip", "setall", "read"):
+            o = self._arg(toks[1])
+            if o is None:
+                out = "void"
+            elif op == "read":
+                out = canon_obj(o)
+            else:
+                v = int(toks[2])
+                if isinstance(o, bitarray):
+                    if op == "setall":
+                        o.setall(v)
+                    elif v < len(o):
+                        o.invert(v)
+                elif op == "setall":
+                    o.fill(v)
+                elif v < o.size:
+                    o[v // o.shape[1]][v % o.shape[1]] ^= 1
+                out = "ok"
+                self._touched(o)
+        else:
+            objs = [self._arg(toks[p]) for p in CALL_OPS[op]]
+            if any(o is None for o in objs):
+                out = "void"
+                self._push(i, None, None)
+            else:
+                flag = [toks[1] == "1"] if op == "data" else []
+                before = [canon_obj(o) for o in objs]
+                fargs = [copy_obj(o) for o in objs] + flag
+                out, res = call_obj(self.cls, op, list(objs) + flag)
+                F = self.fresh() if self.fresh is not None else None
+                if F is not None:
+                    ref, _ = call_obj(F, op, fargs)
+                    if ref != out:
+                        self.bad.append(("history-dependent-result", i,
+                                         f"{METHOD[op]} returns something else than the same call with equal arguments made "
+                                         "first on a new copy of the class", ref, out))
+                for p, o in enumerate(objs):
+                    cur = canon_obj(o)
+                    if cur != before[p]:
+                        if not (op == "fill" and p == 0):
+                            self.bad.append(("argument-altered", i, f"{METHOD[op]} alters its argument", before[p], cur))
+                        self._touched(o)
+                if want is not None and out != want:
+                    kind = WANT_KIND.get(op) or ("not-corrected" if op == "data" and toks[1] == "1" else "round-trip" if op == "data" else "wrong-result")
+                    self.bad.append((kind, i, f"{METHOD[op]} does not return what the property promises for this call", want, out))
+                err = out.startswith("ERR")
+                self._push(i, None if err else res, None if err else out)
+                if op == "fill":
+                    self.no_read.add(len(self.held) - 1)
+                if op == "encode" and len(before[0]) == 96:
+                    self.enc.append((i, before[0], out))
+        self.lines.append(("bh." + " ".join(toks), out))
+        # every object handed out so far still holds what it held (unless the caller overwrote it)
+        for j, o in enumerate(self.held):
+            if o is not None and j not in self.no_read:
+                cur = canon_obj(o)
+                if cur != self.exp[j]:
+                    self.bad.append(("held-result-changed", i,
+                                     f"the object returned by step {self.owner[j]} ({' '.join(self.steps[self.owner[j]])[:60]}) "
+                                     "changed although the caller did not touch it", self.exp[j], cur))
+                    self._touched(o)
+
+    def finish(self):
+        """read every kept object once more (lines for the model)"""
+        for k, o in enumerate(self.held):
+            if o is not None and k not in self.no_read:
+                self.lines.append((f"bh.read @{k}", canon_obj(o)))
+        return self
+
+
+def property_checks(H, cls, patterns, limit=3):
+    """the property on every code word `encode` handed out for a 96-bit message during the history, as it was
+    returned: 196 bits; decodes to the message with and without repair; repair does not alter it; decodes
+    to the message with the given error patterns (first `limit` code words).
+    Returns (kind, step, message, error positions, what, expected, actual)."""
+    bad, seen = [], set()
+    for i, m, c in H.enc:
+        if (m, c) in seen:
+            continue
+        seen.add((m, c))
+        if c.startswith("ERR") or len(c) != 196:
+            if len(c) != 196 or not c.startswith("ERR"):
+                pass
+            bad.append(("encode", i, m, (), "encode of a 96-bit message does not return 196 bits", "196 bits", c[:40]))
+            continue
+        d0 = call(cls.deinterleave_data_bits, bitarray(c), False)
+        if d0 != m:
+            bad.append(("round-trip", i, m, (), "decoder without repair does not return the message", m, d0))
+        rp = call(cls.repair_if_necessary, bitarray(c))
+        if rp != c:
+            bad.append(("repair-alters-codeword", i, m, (), "repair_if_necessary alters an error-free code word", c, rp))
+        for e in [()] + (list(patterns) if len(seen) <= limit else []):
+            d1 = call(cls.deinterleave_data_bits, bitarray(flip(c, e)), True)
+            if d1 != m:
+                bad.append(("not-corrected" if e else "round-trip", i, m, tuple(e),
+                            f"decoder with repair does not return the message ({len(e)} inverted bits)", m, d1))
+    return bad
+
+
+def compress(steps):
+    """drop the steps that do nothing (nop, calls on empty handles) and renumber the handles"""
+    alive, new, out = [], {}, []
+    for st in steps:
+        toks = list(st)
+        op = toks[0]
+        refs = [int(t[1:]) for t in toks[1:] if t.startswith("@")]
+        dead = op in ("nop", "nop+") or any(r >= len(alive) or not alive[r] for r in refs)
+        pushes = op in CALL_OPS or op == "nop+"
+        if pushes:
+            if not dead:
+                new[len(alive)] = sum(alive)
+            alive.append(not dead)
+        if not dead:
+            out.append(tuple(f"@{new[int(t[1:])]}" if t.startswith("@") else t for t in toks))
+    return out
+
+
+def shrink_history(steps, fails):
+    """greedy: blank one step after the other while `fails` (run on a new copy of the class) still holds"""
+    steps = list(steps)
+    for idx in reversed(range(len(steps) - 1)):
+        if steps[idx][0] in ("nop", "nop+"):
+            continue
+        cand = list(steps)
+        cand[idx] = ("nop+",) if steps[idx][0] in CALL_OPS else ("nop",)
+        if fails(cand):
+            steps = cand
+    small = compress(steps)
+    return small if fails(small) else steps
+
+
+class Rel:
+    """inputs related to one 96-bit message m: inputs of the other accepted length that share the integer
+    value / a prefix / a suffix / the info bits with it, blocks that carry non-zero reserved bits, words near
+    its code word, inputs of wrong lengths.  The reference code word comes from a new copy of the class."""
+    R_VALUES = ("0111", "0110", "0101", "0011", "1111", "1110", "0100", "0010", "0001", "1000")
+
+    def __init__(self, m, rng, tabs, by_rc):
+        self.m, self.rng, self.by_rc = m, rng, by_rc
+        self.il, self.info_keys, self.res_keys = tabs
+        F = fresh_class() or bptc()
+        self.F = F
+        self.c = call(F.encode, bitarray(m))
+        self.ok = len(self.c) == 196 and not self.c.startswith("ERR")
+        if not self.ok:
+            self.c = "0" * 196
+
+    def deint(self, w):
+        return "".join(w[self.il[k]] for k in range(196))
+
+    def inter(self, d):
+        w = ["0"] * 196
+        for k in range(196):
+            w[self.il[k]] = d[k]
+        return "".join(w)
+
+    def embed(self, m, r):
+        """196 deinterleaved bits: info bits m, reserved bits r, every FEC bit 0"""
+        d = ["0"] * 196
+        for k, b in zip(self.res_keys, r):
+            d[k] = b
+        for k, b in zip(self.info_keys, m):
+            d[k] = b
+        return "".join(d)
+
+    def block(self, m, r):
+        """on-air product code word of a block with info bits m and reserved bits r"""
+        w = call(self.F.encode, bitarray(self.embed(m, r)))
+        if len(w) != 196 or w.startswith("ERR"):
+            return self.inter(self.embed(m, r))
+        w = list(w)
+        for k, b in zip(self.res_keys, r):
+            w[self.il[k]] = b
+        return "".join(w)
+
+    def r(self):
+        return self.rng.choice(self.R_VALUES)
+
+    def near(self):
+        rng, m = self.rng, self.m
+        k = rng.random()
+        if k < 0.4:
+            i = rng.randrange(96)
+            return m[:i] + ("1" if m[i] == "0" else "0") + m[i + 1:]
+        if k < 0.55:
+            return m[::-1]
+        if k < 0.7:
+            return "".join("1" if b == "0" else "0" for b in m)
+        if k < 0.85:
+            return "0" * 8 + m[8:]
+        return rand_bits(rng, 96)
+
+    def errors(self, wmax=2):
+        rng = self.rng
+        k = rng.random()
+        if wmax == 0 or k < 0.12:
+            return ()
+        if wmax == 1 or k < 0.3:
+            return (rng.randrange(196),)
+        if k < 0.55:
+            r = rng.randrange(13)
+            c1, c2 = rng.sample(range(15), 2)
+            return tuple(sorted((self.by_rc[(r, c1)], self.by_rc[(r, c2)])))
+        if k < 0.7:
+            c = rng.randrange(15)
+            r1, r2 = rng.sample(range(13), 2)
+            return tuple(sorted((self.by_rc[(r1, c)], self.by_rc[(r2, c)])))
+        if k < 0.8:
+            return tuple(sorted((self.il[rng.choice(self.res_keys)], rng.choice([p for p in range(196) if p not in [self.il[q] for q in self.res_keys]]))))
+        return tuple(sorted(rng.sample(range(196), 2)))
+
+    X196 = ("value", "prefix", "suffix-rand", "prefix-rand", "info-R", "block-R", "block-R-other", "block", "block+e", "on-air", "random")
+
+    def x196(self, name):
+        rng, m = self.rng, self.m
+        if name == "value":
+            return "0" * 100 + m
+        if name == "prefix":
+            return m + "0" * 100
+        if name == "suffix-rand":
+            return rand_bits(rng, 100) + m
+        if name == "prefix-rand":
+            return m + rand_bits(rng, 100)
+        if name == "info-R":
+            return self.embed(m, self.r())
+        if name == "block-R":
+            return self.deint(self.block(m, self.r()))
+        if name == "block-R-other":
+            return self.deint(self.block(self.near(), self.r()))
+        if name == "block":
+            return self.deint(self.c)
+        if name == "block+e":
+            return self.deint(flip(self.c, self.errors()))
+        if name == "on-air":
+            return self.c
+        return rand_bits(rng, 196)
+
+    AIR = ("cw+e", "cw+e", "cw", "block-R", "block-R+e", "block-R-other", "cw+3", "random")
+
+    def air(self, name):
+        """(received word, message the property promises for the decoder with repair or None)"""
+        rng = self.rng
+        if name == "cw":
+            return self.c, self.m
+        if name == "cw+e":
+            return flip(self.c, self.errors()), self.m
+        if name == "cw+3":
+            return flip(self.c, rng.sample(range(196), rng.choice((3, 4)))), None
+        if name == "block-R":
+            return self.block(self.m, self.r()), None
+        if name == "block-R+e":
+            return flip(self.block(self.m, self.r()), self.errors()), None
+        if name == "block-R-other":
+            return self.block(self.near(), self.r()), None
+        return rand_bits(rng, 196), None
+
+    def wrong_length(self):
+        """(op, argument) with an argument of a length that is not accepted, related to m"""
+        rng, m, c = self.rng, self.m, self.c
+        return rng.choice([("encode", m[:-1]), ("encode", m[1:]), ("encode", m + "0"), ("encode", "0" + m), ("encode", "-"),
+                           ("encode", "0" * 99 + m), ("encode", "0" * 100 + m + "0"), ("encode", c[:-1]),
+                           ("repair", c[:-1]), ("repair", c + "0"), ("repair", m), ("data", c[1:]), ("data", m), ("deint", c + "1"),
+                           ("deint", m)])
+
+
+class Build:
+    """steps of one history; call() returns the handle of the result"""
+
+    def __init__(self):
+        self.steps, self.n = [], 0
+
+    def call(self, *toks):
+        self.steps.append(tuple(str(t) for t in toks))
+        self.n += 1
+        return self.n - 1
+
+    def do(self, *toks):
+        self.steps.append(tuple(str(t) for t in toks))
+
+
+def lit(s, little=False):
+    return ("L:" if little else "B:") + (s or "-")
+
+
+def primes(rel, rng):
+    """what happens before the call under observation: every entry point, inputs related to the message"""
+    P = []
+    for name in Rel.X196:
+        P.append((f"encode-196:{name}", lambda b, name=name: b.call("encode", lit(rel.x196(name)))))
+    P.append(("encode-196:value-little-endian", lambda b: b.call("encode", lit(rel.x196("value"), True))))
+    for op in ("repair", "data 1", "data 0", "deint"):
+        for name in ("block-R", "block-R+e"):
+            P.append((f"{op}:{name}", lambda b, op=op, name=name: b.call(*op.split(" "), lit(rel.air(name)[0]))))
+    P.append(("data 1:cw+e", lambda b: b.call("data", 1, lit(rel.air("cw+e")[0]))))
+
+    def fill_with(b, x, tamper=None):
+        t = b.call("make")
+        if tamper is not None:
+            b.do("setall", f"@{t}", tamper)
+        b.call("fill", f"@{t}", lit(x))
+
+    P.append(("fill:block-R", lambda b: fill_with(b, rel.x196("block-R"))))
+    P.append(("fill:info-R", lambda b: fill_with(b, rel.x196("info-R"))))
+    P.append(("fill:96-other", lambda b: fill_with(b, rel.near())))
+    P.append(("fill:dirty-table-96", lambda b: fill_with(b, rel.near(), 1)))
+    P.append(("make-overwritten", lambda b: b.do("setall", f"@{b.call('make')}", 1)))
+
+    def tamper(b, op, arg, n):
+        h = b.call(*op.split(" "), lit(arg))
+        if n == 0:
+            b.do("setall", f"@{h}", rng.getrandbits(1))
+        for _ in range(n):
+            b.do("flip", f"@{h}", rng.randrange(96))
+
+    P.append(("encode-96-other:result-overwritten", lambda b: tamper(b, "encode", rel.near(), 2)))
+    P.append(("encode-96-same:result-overwritten", lambda b: tamper(b, "encode", rel.m, 0)))
+    P.append(("encode-96-same:result-3-flips", lambda b: tamper(b, "encode", rel.m, 3)))
+    P.append(("data:result-overwritten", lambda b: tamper(b, "data 1", rel.c, 2)))
+    P.append(("repair:result-overwritten", lambda b: tamper(b, "repair", rel.c, 0)))
+    P.append(("deint:result-overwritten", lambda b: tamper(b, "deint", rel.c, 3)))
+
+    def wrong(b):
+        for _ in range(3):
+            op, x = rel.wrong_length()
+            b.call(*(("data", rng.getrandbits(1)) if op == "data" else (op,)), lit("" if x == "-" else x))
+        b.call("fill", f"@{b.call('make')}", lit(rel.m[:-1]))
+
+    P.append(("wrong-lengths", wrong))
+    P.append(("encode-96:reversed-little-endian", lambda b: b.call("encode", lit(rel.m[::-1], True))))
+    P.append(("encode-96:little-endian", lambda b: b.call("encode", lit(rel.m, True))))
+    P.append(("encode-96:near", lambda b: b.call("encode", lit(rel.near()))))
+    P.append(("nothing", lambda b: None))
+    return P
+
+
+def probes(rel, rng):
+    """the calls under observation: what the property promises for them is attached (?=)"""
+    m, c = rel.m, rel.c
+
+    def decode(b):
+        w, want = rel.air("cw+e")
+        b.call("data", 1, lit(w), "?=" + want)
+        b.call("data", 0, lit(c), "?=" + m)
+
+    def repair(b):
+        b.call("repair", lit(c), "?=" + c)
+        b.call("data", 1, lit(flip(c, rel.errors(1))), "?=" + m)
+
+    def kept(b):
+        h = b.call("encode", lit(m))
+        b.call("data", 1, f"@{h}", "?=" + m)
+        for p in rel.errors():
+            b.do("flip", f"@{h}", p)
+        b.call("data", 1, f"@{h}", "?=" + m)
+        b.call("repair", f"@{h}")
+        b.call("data", 0, f"@{h}")
+
+    def table(b):
+        t = b.call("make")
+        b.call("fill", f"@{t}", lit(m))
+        b.call("encode", lit(m))
+
+    return [
+        ("encode-96", lambda b: b.call("encode", lit(m))),
+        ("encode-96-little-endian", lambda b: b.call("encode", lit(m, True))),
+        ("encode-96-twice", lambda b: (b.call("encode", lit(m)), b.call("encode", lit(m)))),
+        ("decode", decode),
+        ("repair", repair),
+        ("encode-keep-flip-decode", kept),
+        ("make-fill-encode", table),
+    ]
+
+
+def random_history(rng, rels, length):
+    """random interleaving of every entry point on inputs related to the messages of `rels`, kept objects
+    passed again as arguments, overwritten, and calls repeated"""
+    b = Build()
+    info = {}  # handle -> ("cw", message, set of flipped positions) | ("bits", length) | ("table",)
+    calls = []  # repeatable calls made so far
+    while len(b.steps) < length:
+        rel = rng.choice(rels)
+        k = rng.random()
+        if k < 0.20:
+            x = rel.m if rng.random() < 0.7 else rel.near()
+            le = rng.random() < 0.15
+            h = b.call("encode", lit(x, le))
+            info[h] = ("cw", x, set())
+            calls.append(("encode", lit(x, le)))
+        elif k < 0.38:
+            x = rel.x196(rng.choice(Rel.X196))
+            h = b.call("encode", lit(x, rng.random() < 0.1))
+            info[h] = ("bits", 196)
+            calls.append(("encode", lit(x)))
+        elif k < 0.52:
+            w, want = rel.air(rng.choice(Rel.AIR))
+            r = 1 if rng.random() < 0.75 else 0
+            extra = ["?=" + want] if want is not None and (r == 1 or w == rel.c) else []
+            h = b.call("data", r, lit(w), *extra)
+            info[h] = ("bits", 96)
+            calls.append(("data", str(r), lit(w)))
+        elif k < 0.60:
+            w, want = rel.air(rng.choice(Rel.AIR))
+            extra = ["?=" + w] if w == rel.c else []
+            h = b.call("repair", lit(w), *extra)
+            info[h] = ("bits", 196)
+            calls.append(("repair", lit(w)))
+        elif k < 0.63:
+            h = b.call("deint", lit(rel.air(rng.choice(Rel.AIR))[0]))
+            info[h] = ("bits", 196)
+        elif k < 0.67:
+            info[b.call("make")] = ("table",)
+        elif k < 0.73:
+            tabs = [h for h, v in info.items() if v[0] == "table"]
+            if not tabs:
+                info[b.call("make")] = ("table",)
+                continue
+            x = rng.choice([rel.m, rel.near(), rel.x196(rng.choice(Rel.X196)), rel.m[:-1]])
+            b.call("fill", f"@{rng.choice(tabs)}", lit(x))
+        elif k < 0.83:
+            hs = [h for h, v in info.items()]
+            if not hs:
+                continue
+            h = rng.choice(hs)
+            v = info[h]
+            n = 195 if v[0] == "table" else 196 if v[0] == "cw" else v[1]
+            p = rng.randrange(n)
+            b.do("flip", f"@{h}", p)
+            if v[0] == "cw":
+                v[2].symmetric_difference_update({p})
+        elif k < 0.85:
+            hs = [h for h, v in info.items() if v[0] != "cw"]
+            if hs:
+                b.do("setall", f"@{rng.choice(hs)}", rng.getrandbits(1))
+        elif k < 0.87:
+            if info:
+                b.do("read", f"@{rng.choice(list(info))}")
+        elif k < 0.91:
+            op, x = rel.wrong_length()
+            b.call(*(("data", rng.getrandbits(1)) if op == "data" else (op,)), lit("" if x == "-" else x))
+        elif k < 0.96:
+            # a kept object goes in again as an argument
+            hs = [h for h, v in info.items() if v[0] != "table"]
+            if not hs:
+                continue
+            h = rng.choice(hs)
+            v = info[h]
+            n = 196 if v[0] == "cw" else v[1]
+            if n == 96:
+                info[b.call("encode", f"@{h}")] = ("bits", 196)
+            else:
+                op = rng.choice(["data 1", "data 1", "data 0", "repair", "deint", "encode"])
+                extra = []
+                if v[0] == "cw" and ((op == "data 1" and len(v[2]) <= 2) or (op == "data 0" and not v[2])):
+                    extra = ["?=" + v[1]]
+                g = b.call(*op.split(" "), f"@{h}", *extra)
+                info[g] = ("bits", 96 if op.startswith("data") else 196)
+        elif calls:
+            # an earlier call once more (same arguments)
+            st = rng.choice(calls)
+            h = b.call(*st)
+            info[h] = ("cw", st[1][2:], set()) if st[0] == "encode" and len(st[1]) == 98 else ("bits", 96 if st[0] == "data" else 196)
+    return b.steps
+
+
+def message_for_history(rng):
+    """base message of one history: random, or a shape whose integer value / prefix / suffix is special"""
+    k = rng.random()
+    if k < 0.6:
+        return rand_bits(rng, 96), "random"
+    if k < 0.7:
+        n = rng.choice((1, 4, 8, 16, 64))
+        return "0" * n + "1" + rand_bits(rng, 95 - n), "leading-zeros"
+    if k < 0.78:
+        n = rng.choice((1, 4, 8, 16, 64))
+        return rand_bits(rng, 95 - n) + "1" + "0" * n, "trailing-zeros"
+    if k < 0.86:
+        w = ["0"] * 96
+        for i in rng.sample(range(96), rng.choice((1, 2, 3))):
+            w[i] = "1"
+        return "".join(w), "low-weight"
+    if k < 0.92:
+        return "1" + rand_bits(rng, 94) + "1", "both-ends-set"
+    if k < 0.96:
+        return "1" * 96, "all-one"
+    return "0" * 96, "all-zero"
+
+
+class Histories:
+    """runs histories on the class under test (one long-lived class object for the whole run) and reports"""
+
+    def __init__(self, ctx, R, by_rc):
+        self.ctx, self.R, self.by_rc = ctx, R, by_rc
+        B = R.B
+        il, info_keys, res_keys = {}, [], []
+        for k, v in B.INTERLEAVING_INDICES.items():
+            il[k] = v[0]
+            if v[3]:
+                res_keys.append(k)
+            elif not v[4]:
+                info_keys.append(k)
+        self.tabs = (il, info_keys, res_keys)
+        self.lines = []
+        self.shrinks = 0
+
+    def rel(self, m):
+        return Rel(m, self.ctx.rng, self.tabs, self.by_rc)
+
+    def patterns(self, rel):
+        """error patterns for the code words a history handed out: the classes the repair treats differently"""
+        rng = self.ctx.rng
+        out = []
+        for _ in range(2):
+            r = rng.randrange(13)
+            c1, c2 = rng.sample(range(15), 2)
+            out.append(tuple(sorted((self.by_rc[(r, c1)], self.by_rc[(r, c2)]))))
+        c = rng.randrange(15)
+        r1, r2 = rng.sample(range(13), 2)
+        out.append(tuple(sorted((self.by_rc[(r1, c)], self.by_rc[(r2, c)]))))
+        out.append(rel.errors())
+        return out
+
+    def run(self, steps, rel, tag, sample=False):
+        ctx, B = self.ctx, self.R.B
+        H = Hist(B, fresh_class).run(steps)
+        pats = self.patterns(rel)
+        pbad = property_checks(H, B, pats)
+        H.finish()
+        ctx.case(("history", tuple(steps)), nontrivial=True,
+                 sample={"history": steps_str(steps), "results": [o[:48] for _, o in H.lines[:len(steps)]]} if sample else None)
+        ctx.count(f"hist:{tag}")
+        ctx.count("hist:steps", len(steps))
+        ctx.count("hist:kept-objects", sum(1 for o in H.held if o is not None))
+        ctx.count("hist:code-words-re-verified", len(H.enc))
+        for st in steps:
+            if st[-1].startswith("?="):
+                ctx.count("hist:calls-with-promised-result")
+            if st[0] in CALL_OPS and any(t.startswith("@") for t in st[1:]) and st[0] != "fill":
+                ctx.count("hist:kept-object-as-argument")
+        self.lines.append(("bh.reset", "ok"))
+        self.lines += H.lines
+        n = 0
+        for kind, i, what, exp, act in H.bad:
+            if n < 3:
+                self.report(kind, steps[: i + 1], what, exp, act)
+            n += 1
+        for kind, i, m, e, what, exp, act in pbad:
+            if n < 3:
+                self.report(kind, steps[: i + 1], what, exp, act, m, e)
+            n += 1
+
+    def report(self, kind, steps, what, exp, act, m=None, e=None):
+        ctx = self.ctx
+
+        def fails(cand):
+            C = fresh_class()
+            if C is None:
+                return False
+            if m is None:
+                return any(b[0] == kind for b in Hist(C, fresh_class).run(cand).bad)
+            H2 = Hist(C, None).run(cand)
+            return any(b[0] == kind and b[2] == m for b in property_checks(H2, C, [e] if e else [], limit=99))
+
+        inp = {"history": steps_str(steps)}
+        if self.shrinks < 6:
+            self.shrinks += 1
+            if fails(steps):
+                inp = {"history": steps_str(shrink_history(steps, fails)), "fails_on_a_new_copy_of_the_class": True}
+            else:
+                inp["fails_on_a_new_copy_of_the_class"] = False
+        if m is not None:
+            inp["message"] = m
+            inp["error_positions"] = list(e)
+        ctx.fail(kind, inp, what + " (after the calls of the history)", expected=exp, actual=act)
+
+    def flush(self):
+        ctx = self.ctx
+        if self.lines and not ctx.search_only and ctx.driver_ok:
+            ctx.correspond("history", self.lines)
+        self.lines = []
+
+
+def run_histories(ctx, R, by_rc):
+    rng = ctx.rng
+    boost = min(ctx.boost, 4)
+    Hs = Histories(ctx, R, by_rc)
+    # ---- every (what happened before) x (call under observation), each with a message of its own
+    sweeps = (1 if not ctx.thorough() else 6) * boost
+    for s in range(sweeps):
+        names_p = [n for n, _ in primes(Hs.rel("0" * 96), rng)]
+        names_q = [n for n, _ in probes(Hs.rel("0" * 96), rng)]
+        for ip, np_ in enumerate(names_p):
+            for iq, nq in enumerate(names_q):
+                m, shape = message_for_history(rng)
+                rel = Hs.rel(m)
+                b = Build()
+                primes(rel, rng)[ip][1](b)
+                probes(rel, rng)[iq][1](b)
+                ctx.count(f"hist:message:{shape}")
+                ctx.count(f"hist:before:{np_.split(':')[0]}")
+                Hs.run(b.steps, rel, "pairwise", sample=(s == 0 and (ip, iq) in ((0, 0), (11, 5))))
+        Hs.flush()
+    # ---- random interleavings
+    n_rand = (500 if not ctx.thorough() else 6000) * boost
+    for i in range(n_rand):
+        m, shape = message_for_history(rng)
+        rels = [Hs.rel(m)]
+        if rng.random() < 0.4:
+            rels.append(Hs.rel(rels[0].near()))
+        steps = random_history(rng, rels, rng.randint(4, 14))
+        ctx.count(f"hist:message:{shape}")
+        Hs.run(steps, rels[0], "random-interleaving", sample=(i == 0))
+        if i % 200 == 199:
+            Hs.flush()
+    Hs.flush()
+
+
 def run(ctx):
     ctx.rule = (
         "message = 96 seeded random bits (plus all-zero, all-one, the 96 unit messages in thorough); error pattern = set of "
